@@ -20,6 +20,9 @@ var (
 	tConfigT   = reflect.TypeOf(ucfg.Config{})
 )
 
+// NamedKey is a map key type defined from string (`map[NamedKey]T` is a supported Unpack target)
+type NamedKey string
+
 func buildType(v interface{}) reflect.Type {
 	j := v.(map[string]interface{})
 	t := j["t"].(string)
@@ -31,6 +34,10 @@ func buildType(v interface{}) reflect.Type {
 	case "array":
 		return reflect.ArrayOf(numInt(j["n"], 0), buildType(j["e"]))
 	case "map":
+		if nk, _ := j["nk"].(bool); nk {
+			// a key type defined from string
+			return reflect.MapOf(reflect.TypeOf(NamedKey("")), buildType(j["e"]))
+		}
 		return reflect.MapOf(reflect.TypeOf(""), buildType(j["e"]))
 	case "badmap":
 		return reflect.MapOf(reflect.TypeOf(0), buildType(j["e"]))
@@ -144,7 +151,7 @@ func setValue(rv reflect.Value, v interface{}) {
 			for k, e := range m {
 				ev := reflect.New(t.Elem()).Elem()
 				setValue(ev, e)
-				mv.SetMapIndex(reflect.ValueOf(k), ev)
+				mv.SetMapIndex(reflect.ValueOf(k).Convert(t.Key()), ev)
 			}
 			rv.Set(mv)
 		}
